@@ -224,8 +224,17 @@ Definition ojoin (a b : aout) : aout :=
   {| o_next := ajoin (o_next a) (o_next b); o_break := ajoin (o_break a) (o_break b); o_ret := o_ret a || o_ret b |}.
 
 (* the loop: unroll until the loop-head state is inductive *)
+(* the states in which a loop is left are kept apart (up to 8; beyond, joined into the first): what follows the loop is
+   analysed once per exit state, so that a test on a counter right after the loop sees the value that goes with the
+   remaining input *)
+Definition add_exit (E : ast) (l : list ast) : list ast :=
+  if is_bot E then l
+  else if existsb (aleq E) l then l
+  else if Nat.ltb (List.length l) 8 then E :: l
+  else match l with X :: r => ajoin X E :: r | [] => [E] end.
+
 Fixpoint aloop (run : list stmt -> ast -> res aout) (k : nat) (joined : bool) (c : cond) (body : list stmt)
-               (S : ast) (exits : ast) (ret : bool) : res (ast * bool) :=
+               (S : ast) (exits : list ast) (ret : bool) : res (list ast * bool) :=
   match k with
   | 0 => Fail 8 (heads (a_cur S))
   | S k' =>
@@ -235,7 +244,7 @@ Fixpoint aloop (run : list stmt -> ast -> res aout) (k : nat) (joined : bool) (c
           match run body St with
           | Fail e y => Fail e y
           | Ok ob =>
-              let exits' := ajoin exits (ajoin Sf (o_break ob)) in
+              let exits' := add_exit (o_break ob) (add_exit Sf exits) in
               let ret' := ret || o_ret ob in
               if aleq (o_next ob) S then Ok (exits', ret')
               else aloop run k' true c body
@@ -243,6 +252,17 @@ Fixpoint aloop (run : list stmt -> ast -> res aout) (k : nat) (joined : bool) (c
                       then ajoin S (o_next ob) else o_next ob)
                      exits' ret'
           end
+      end
+  end.
+
+(* the rest of a statement list from each of several states *)
+Fixpoint acont (run : list stmt -> ast -> res aout) (r : list stmt) (Es : list ast) : res aout :=
+  match Es with
+  | [] => Ok out_bot
+  | E :: t =>
+      match run r E with
+      | Ok a => match acont run r t with Ok b => Ok (ojoin a b) | Fail e y => Fail e y end
+      | Fail e y => Fail e y
       end
   end.
 
@@ -289,8 +309,12 @@ Fixpoint asexec (n : nat) (ss : list stmt) (S : ast) : res aout :=
       | SSet v => asexec n' r (a_set S v (aexact 1))
       | SZero v => asexec n' r (a_set S v (aexact 0))
       | SWhile c body =>
-          match aloop (asexec n') loop_fuel false c body S bot false with
-          | Ok (E, R) => continue {| o_next := E; o_break := bot; o_ret := R |}
+          match aloop (asexec n') loop_fuel false c body S [] false with
+          | Ok (Es, R) =>
+              match acont (asexec n') r Es with
+              | Ok o2 => Ok {| o_next := o_next o2; o_break := o_break o2; o_ret := R || o_ret o2 |}
+              | Fail e y => Fail e y
+              end
           | Fail e y => Fail e y
           end
       | SIf c th el =>
